@@ -328,3 +328,86 @@ def resolve_identity_arg_sets():
                     an._scenario = {"kind": kind, "type": t, "category": cat, "taken": sorted(taken)}
                     out.append({"self": an, "entry": e})
     return out
+
+
+# =================================================================================================
+# SignalAnalyzer.resolve_signal_name / get_signal_name / can_inline_constant / inline_value (the names a producer WRITES and a
+# consumer READS are computed by the same function, so they agree iff it is stable):
+#   resolve_signal_name(t, entry)  an explicit game / `signal-` name is returned as it is (whatever the entry says: a member selected
+#                                  from a bundle keeps its own name); otherwise the entry's resolved name; otherwise the program's
+#                                  mapping; an unmapped implicit type gets a fresh signal ONCE — every later call returns the same one
+#   get_signal_name(operand)       an integer reads signal-0; a reference resolves through its producer's entry
+#   inline_value(ref)              the literal of an unmaterialised constant producer, None for everything else
+# Evaluated on the REAL methods over an enumerated box: bounded.
+# =================================================================================================
+RNQ = "dsl_compiler/src/layout/signal_analyzer.py::SignalAnalyzer.resolve_signal_name"
+IVQ = "dsl_compiler/src/layout/signal_analyzer.py::SignalAnalyzer.inline_value"
+
+
+def _rn_post(a, res):
+    me, sc = a.self, a.self._scenario
+    t, e = a.signal_type, a.entry
+    again = me.resolve_signal_name(t, e)
+    if again != res:
+        return False            # stable
+    if sc["want"] is not None:
+        return res == sc["want"]
+    # fresh implicit: a virtual signal nobody uses
+    return res not in sc["taken"] and res.startswith("signal-") and res not in ("signal-W", "signal-each", "signal-everything", "signal-anything") \
+        and me.resolve_signal_name("__v88", None) != res
+
+
+resolve_name = Contract(qualname=RNQ, params={"self": ty.TOpaque("analyzer"), "signal_type": ty.TOpaque("t"), "entry": ty.TOpaque("entry")},
+                        ensures=[("explicit names as they are; else the entry's name; else the mapping; an implicit type gets ONE fresh signal (stable across calls)", _rn_post)],
+                        verify=False, properties=("C13", "C01", "C12"), note="evaluated on the real method over an enumerated box (bounded stand-in)")
+
+
+def resolve_name_arg_sets():
+    from dsl_compiler.src.common.diagnostics import ProgramDiagnostics
+    from dsl_compiler.src.layout.signal_analyzer import SignalAnalyzer, SignalUsageEntry
+    out = []
+    tmap0 = {"__v1": {"name": "signal-D", "type": "virtual"}, "alias": "signal-E"}
+    for tmap in ({}, tmap0):
+        taken = {"signal-D", "signal-E"} if tmap else set()
+        cases = [("signal-A", None, "signal-A"), ("iron-plate", None, "iron-plate"), ("signal-A", "signal-each", "signal-A"), ("__v7", "signal-Q", "signal-Q"),
+                 (None, "signal-Q", "signal-Q"), (None, None, "signal-0"), ("__v9", None, None)]
+        if tmap:
+            cases += [("__v1", None, "signal-D"), ("alias", None, "signal-E")]
+        for t, entry_name, want in cases:
+            an = SignalAnalyzer(ProgramDiagnostics(log_level="error"), {k: (dict(v) if isinstance(v, dict) else v) for k, v in tmap.items()})
+            e = None
+            if entry_name is not None:
+                e = SignalUsageEntry(signal_id="n")
+                e.resolved_signal_name = entry_name
+            an._scenario = {"want": want, "taken": taken}
+            out.append({"self": an, "signal_type": t, "entry": e})
+    return out
+
+
+def _iv_post(a, res):
+    sc = a.self._scenario
+    return res == sc["want"] and a.self.can_inline_constant(a.signal_ref) == (sc["want"] is not None)
+
+
+inline_value_c = Contract(qualname=IVQ, params={"self": ty.TOpaque("analyzer"), "signal_ref": ty.TOpaque("ref")},
+                          ensures=[("the literal of an unmaterialised constant producer; None for a materialised one, a non-constant producer, an unknown reference", _iv_post)],
+                          verify=False, properties=("C01", "C02", "C20"), note="evaluated on the real method over an enumerated box (bounded stand-in)")
+CONTRACTS += [resolve_name, inline_value_c]
+
+
+def inline_value_arg_sets():
+    from dsl_compiler.src.common.diagnostics import ProgramDiagnostics
+    from dsl_compiler.src.ir import nodes as N
+    from dsl_compiler.src.layout.signal_analyzer import SignalAnalyzer, SignalUsageEntry
+    out = []
+    for kind, mat, lit in [(k, m, l) for k in ("const", "arith", "none", "absent") for m in (False, True) for l in (None, 0, 7, -3)]:
+        an = SignalAnalyzer(ProgramDiagnostics(log_level="error"), {})
+        if kind != "absent":
+            e = SignalUsageEntry(signal_id="n")
+            e.producer = {"const": N.IRConst("n", "signal-A"), "arith": N.IRArith("n", "signal-A"), "none": None}[kind]
+            e.should_materialize, e.literal_value = mat, lit
+            an.signal_usage["n"] = e
+        want = lit if (kind == "const" and not mat and lit is not None) else None
+        an._scenario = {"want": want}
+        out.append({"self": an, "signal_ref": N.SignalRef("signal-A", "n")})
+    return out
